@@ -29,8 +29,8 @@ Proof.
   rewrite (rd_ok ATree (tree s) (S d1) []) by lia. cbn [bind].
   pose proof (Hr d1 ltac:(lia)) as L1. pose proof (Hr (S d1) Hd) as L2.
   destruct (Nat.leb_spec MCL (length (nth d1 (tree s) []))) as [_|H]; [|lia].
-  destruct (nth (S d1) (tree s) []) as [|x tl] eqn:E; [discriminate|]. cbn [length] in L2.
-  destruct (Nat.leb_spec MCL (length tl)) as [_|H]; [|lia].
+  destruct (nth (S d1) (tree s) []) as [|x tlr] eqn:E; [discriminate|]. cbn [length] in L2.
+  destruct (Nat.leb_spec MCL (length tlr)) as [_|H]; [|lia].
   rewrite wr_ok by lia. cbn [bind].
   rewrite (rd_ok APrev (prevw s) (S d1) 0) by lia. cbn [bind].
   rewrite wr_ok by lia. cbn [bind]. rewrite wr_ok by lia. cbn [bind].
@@ -50,10 +50,10 @@ Proof.
   intros [Ht Hr Hp Hv Hc _] Hd t0 Has Hlw. unfold pm_take_leaf, rd2, wr2.
   rewrite (rd_ok ATree (tree s) d []) by lia. cbn [bind].
   pose proof (Hr d Hd) as L2.
-  destruct (nth d (tree s) []) as [|x tl] eqn:E; [discriminate|]. cbn [length] in L2.
-  subst t0. cbn [hd tl].
-  rewrite (rd_ok ARow (x :: tl) 0 0) by (cbn [length]; lia). cbn [bind nth].
-  rewrite (rd_ok ATree (tree s) d []) by lia. cbn [bind]. rewrite E.
+  destruct (nth d (tree s) []) as [|x tlr] eqn:E; [discriminate|]. cbn [length] in L2.
+  subst t0. cbn [hd tl] in *.
+  rewrite (rd_ok ARow (x :: tlr) 0 0) by (cbn [length]; lia). cbn [bind nth].
+  cbn [bind].
   rewrite wr_ok by (cbn [length]; lia). cbn [bind upd].
   rewrite wr_ok by lia. cbn [bind].
   rewrite (rd_ok APrev (prevw s) d 0) by lia. cbn [bind].
@@ -78,3 +78,172 @@ Proof.
   - apply upd_nth_same. exact H.
   - apply upd_nth_other. congruence.
 Qed.
+
+(* ---- sort_alphabet -------------------------------------------------------------------------------------- *)
+Definition geR (a b : N) : Prop := b <= a.
+
+Lemma insert_desc_perm t l : Permutation (insert_desc t l) (t :: l).
+Proof.
+  induction l as [|x r IH]; cbn [insert_desc]; [reflexivity|].
+  destruct (x <? t); [reflexivity|].
+  rewrite IH. apply perm_swap.
+Qed.
+
+Lemma insert_desc_sorted t l : StronglySorted geR l -> StronglySorted geR (insert_desc t l).
+Proof.
+  induction l as [|x r IH]; intro H; cbn [insert_desc].
+  - constructor; constructor.
+  - inversion H as [|? ? Hr Hx]; subst.
+    destruct (N.ltb_spec x t) as [Hlt|Hge].
+    + constructor; [exact H|]. constructor; [unfold geR; lia|].
+      eapply Forall_impl; [|exact Hx]. unfold geR. intros; lia.
+    + constructor; [apply IH; exact Hr|].
+      apply Forall_forall. intros y Hy.
+      apply (Permutation_in _ (insert_desc_perm t r)) in Hy. destruct Hy as [<-|Hy]; [exact Hge|].
+      rewrite Forall_forall in Hx. apply Hx. exact Hy.
+Qed.
+
+Lemma sort_desc_gen l : forall acc, StronglySorted geR acc ->
+  StronglySorted geR (fold_left (fun a t => insert_desc t a) l acc) /\
+  Permutation (fold_left (fun a t => insert_desc t a) l acc) (l ++ acc).
+Proof.
+  induction l as [|x r IH]; intros acc Hacc; cbn [fold_left app]; [split; [exact Hacc|reflexivity]|].
+  destruct (IH (insert_desc x acc) (insert_desc_sorted x acc Hacc)) as [S1 P1]. split; [exact S1|].
+  rewrite P1. rewrite insert_desc_perm. symmetry. apply Permutation_middle.
+Qed.
+
+Lemma sort_desc_sorted l : StronglySorted geR (sort_desc l).
+Proof. apply sort_desc_gen. constructor. Qed.
+
+Lemma sort_desc_perm l : Permutation (sort_desc l) l.
+Proof. destruct (sort_desc_gen l [] ltac:(constructor)) as [_ P]. rewrite app_nil_r in P. exact P. Qed.
+
+Lemma ssorted_nth l : StronglySorted geR l -> forall i j, (i <= j)%nat -> (j < length l)%nat -> nth j l 0 <= nth i l 0.
+Proof.
+  induction 1 as [|x r Hr IH Hx]; intros i j Hij Hj; cbn [length] in Hj; [lia|].
+  destruct i as [|i], j as [|j]; cbn [nth]; try lia.
+  - rewrite Forall_forall in Hx. apply Hx. apply nth_In. lia.
+  - apply IH; lia.
+Qed.
+
+(* ---- leaf_weight[] ---------------------------------------------------------------------------------------- *)
+Definition Fof (w : N) : N := w / U32.
+
+Definition labels (f : list N) : list N := label_from 0 f.
+
+(* the ascending frequency list that the proofs work with *)
+Definition xs_of (f : list N) : list N := map Fof (rev (sort_desc (labels f))).
+
+Lemma label_from_length k f : length (label_from k f) = length f.
+Proof. revert k; induction f as [|x r IH]; intro k; cbn [label_from length]; auto. Qed.
+
+Lemma label_from_nth f : forall k j, (j < length f)%nat ->
+  nth j (label_from k f) 0 = leaf_label (nth j f 0) (k + N.of_nat j).
+Proof.
+  induction f as [|x r IH]; intros k j Hj; cbn [length] in Hj; [lia|].
+  destruct j as [|j]; cbn [label_from nth].
+  - f_equal. lia.
+  - rewrite IH by lia. f_equal. lia.
+Qed.
+
+Definition leaf_shaped (w : N) : Prop :=
+  exists F L, w = enc F L /\ F < U32 /\ 65536 < L /\ L < 2 ^ 17.
+
+Lemma labels_shaped f : (length f <= N.to_nat MAX_ALPHA_SIZE)%nat -> Forall (fun x => x < U32) f ->
+  Forall leaf_shaped (labels f).
+Proof.
+  intros Hn Hf. apply Forall_forall. intros w Hw.
+  apply (In_nth _ _ 0) in Hw. destruct Hw as [j [Hj <-]].
+  unfold labels in *. rewrite label_from_length in Hj. rewrite label_from_nth by exact Hj.
+  assert (HM : MAX_ALPHA_SIZE < 2 ^ 16) by (vm_compute; reflexivity).
+  rewrite leaf_label_enc by lia.
+  exists (nth j f 0), (65536 + (MAX_ALPHA_SIZE - (0 + N.of_nat j))).
+  split; [reflexivity|]. split; [|lia].
+  rewrite Forall_forall in Hf. apply Hf. apply nth_In. exact Hj.
+Qed.
+
+Lemma Fof_enc F L : L < U32 -> Fof (enc F L) = F.
+Proof. apply enc_div. Qed.
+
+Lemma Fof_mono a b : a <= b -> Fof a <= Fof b.
+Proof. intro H. unfold Fof. apply N.div_le_mono; [unfold U32; lia|exact H]. Qed.
+
+Section LeafWeight.
+Variable f : list N.
+Notation n := (length f).
+Hypothesis Hn2 : (2 <= n)%nat.
+Hypothesis Hnmax : (n <= N.to_nat MAX_ALPHA_SIZE)%nat.
+Hypothesis Hf : Forall (fun x => x < U32) f.
+
+Let sorted := sort_desc (labels f).
+Let lw := make_leaf_weight f.
+Let xs := xs_of f.
+
+Lemma sorted_length : length sorted = n.
+Proof. unfold sorted. rewrite (Permutation_length (sort_desc_perm _)). apply label_from_length. Qed.
+
+Lemma lw_length : length lw = S n.
+Proof. unfold lw, make_leaf_weight. cbn [length]. change (sort_desc (label_from 0 f)) with sorted. rewrite sorted_length. reflexivity. Qed.
+
+Lemma xs_length : length xs = n.
+Proof. unfold xs, xs_of. rewrite map_length, rev_length. apply sorted_length. Qed.
+
+Lemma lw_0 : nth 0 lw 0 = MAXW.
+Proof. reflexivity. Qed.
+
+Lemma sorted_shaped : Forall leaf_shaped sorted.
+Proof.
+  apply Forall_forall. intros w Hw. apply (Permutation_in _ (sort_desc_perm _)) in Hw.
+  pose proof (labels_shaped f Hnmax Hf) as H. rewrite Forall_forall in H. apply H. exact Hw.
+Qed.
+
+(* leaf_weight[n - e] is the packed weight of the (e+1)-th lightest leaf *)
+Lemma lw_leaf e : (e < n)%nat ->
+  exists L, nth (n - e) lw 0 = enc (leafF xs e) L /\ leafF xs e < U32 /\ 65536 < L /\ L < 2 ^ 17.
+Proof.
+  intro He. unfold lw, make_leaf_weight. change (sort_desc (label_from 0 f)) with sorted.
+  replace (n - e)%nat with (S (n - 1 - e)) by lia. cbn [nth].
+  pose proof sorted_length as SL.
+  assert (Hin : In (nth (n - 1 - e) sorted 0) sorted) by (apply nth_In; lia).
+  pose proof sorted_shaped as SS. rewrite Forall_forall in SS.
+  destruct (SS _ Hin) as [F [L [E [HF [HL1 HL2]]]]].
+  exists L. rewrite E.
+  assert (EF : leafF xs e = F).
+  { unfold leafF, xs, xs_of. fold sorted.
+    rewrite (nth_indep _ 0 (Fof 0)) by (rewrite map_length, rev_length; lia).
+    rewrite map_nth. rewrite rev_nth by lia. rewrite SL.
+    replace (n - S e)%nat with (n - 1 - e)%nat by lia.
+    rewrite E. apply Fof_enc. unfold U32; lia. }
+  rewrite EF. auto.
+Qed.
+
+Lemma xs_sorted : forall i j, (i <= j)%nat -> (j < length xs)%nat -> leafF xs i <= leafF xs j.
+Proof.
+  intros i j Hij Hj. rewrite xs_length in Hj. pose proof sorted_length as SL.
+  unfold leafF, xs, xs_of. fold sorted.
+  assert (G : forall k, (k < n)%nat -> nth k (map Fof (rev sorted)) 0 = Fof (nth (n - S k) sorted 0)).
+  { intros k Hk. rewrite (nth_indep _ 0 (Fof 0)) by (rewrite map_length, rev_length; lia).
+    rewrite map_nth. rewrite rev_nth by lia. rewrite SL. reflexivity. }
+  rewrite !G by lia.
+  apply Fof_mono. apply ssorted_nth; [apply sort_desc_sorted|lia|lia].
+Qed.
+
+Lemma xs_perm : Permutation xs (rev f).
+Proof.
+  unfold xs, xs_of.
+  assert (E : f = map Fof (labels f)).
+  { apply nth_ext with (d := 0) (d' := Fof 0).
+    - rewrite map_length. unfold labels. rewrite label_from_length. reflexivity.
+    - intros j Hj. rewrite map_nth. unfold labels. rewrite label_from_nth by exact Hj.
+      assert (HM : MAX_ALPHA_SIZE < 2 ^ 16) by (vm_compute; reflexivity).
+      rewrite leaf_label_enc by lia. rewrite Fof_enc by (unfold U32; lia). reflexivity. }
+  rewrite E at 2. rewrite <- map_rev. apply Permutation_map. rewrite <- !Permutation_rev.
+  apply sort_desc_perm.
+Qed.
+
+Lemma lsum_perm (a b : list N) : Permutation a b -> lsum a = lsum b.
+Proof. induction 1; cbn [lsum]; lia. Qed.
+
+Lemma xs_total : lsum xs = lsum f.
+Proof. rewrite (lsum_perm _ _ xs_perm). apply lsum_perm. symmetry. apply Permutation_rev. Qed.
+End LeafWeight.
